@@ -336,6 +336,23 @@ func (st *State) external(caller *frame, fn *ssa.Function, args []Value) Value {
 		return ConstInt(64, int64(strings.Compare(st.concStr(args[0], name), st.concStr(args[1], name))))
 	case "strings.Index":
 		return ConstInt(64, int64(strings.Index(st.concStr(args[0], name), st.concStr(args[1], name))))
+	case "strings.LastIndex":
+		// last position where the (concrete) separator starts: one branch per candidate position, from the end
+		sep := st.concStr(args[1], name)
+		bs := strBytes(st.strArg(args[0]))
+		if len(sep) == 0 {
+			return ConstInt(64, int64(len(bs)))
+		}
+		for i := len(bs) - len(sep); i >= 0; i-- {
+			cond := BoolT(true)
+			for k := 0; k < len(sep); k++ {
+				cond = And(cond, Cmp(OpEq, bs[i+k], Const(8, uint64(sep[k]))))
+			}
+			if st.Branch(cond) {
+				return ConstInt(64, int64(i))
+			}
+		}
+		return ConstInt(64, -1)
 	case "strings.IndexByte":
 		// first position holding the byte: one branch per symbolic byte on the way
 		bs := strBytes(st.strArg(args[0]))
@@ -576,6 +593,35 @@ func (st *State) external(caller *frame, fn *ssa.Function, args []Value) Value {
 		return nil
 	case "regexp.MustCompile":
 		return &Native{regexp.MustCompile(st.concStr(args[0], name))}
+	case "(*regexp.Regexp).FindAllStringSubmatch":
+		re := args[0].(*Native).V.(*regexp.Regexp)
+		ms := re.FindAllStringSubmatch(st.concStr(args[1], name), int(st.ConcInt(args[2].(*Term))))
+		if ms == nil {
+			return Slice(nil)
+		}
+		out := make(Slice, len(ms))
+		for i, m := range ms {
+			row := make(Slice, len(m))
+			for k, g := range m {
+				row[k] = g
+			}
+			out[i] = row
+		}
+		return out
+	case "(*regexp.Regexp).FindAllString":
+		re := args[0].(*Native).V.(*regexp.Regexp)
+		ms := re.FindAllString(st.concStr(args[1], name), int(st.ConcInt(args[2].(*Term))))
+		if ms == nil {
+			return Slice(nil)
+		}
+		out := make(Slice, len(ms))
+		for i, m := range ms {
+			out[i] = m
+		}
+		return out
+	case "(*regexp.Regexp).MatchString":
+		re := args[0].(*Native).V.(*regexp.Regexp)
+		return BoolT(re.MatchString(st.concStr(args[1], name)))
 	case "(*regexp.Regexp).ReplaceAllStringFunc":
 		re := args[0].(*Native).V.(*regexp.Regexp)
 		src := st.concStr(args[1], name)
